@@ -11,6 +11,11 @@ direct ops (the same line is answered by the harness with the real functions; co
   IP n t1..tn h qpos.. qvel..           -> nq: <floats>                          (mj_integratePos)
   NA dyn lim off actnum h act adot vel lo hi p0 p2 p5 p7 p8 g5 b3 b4 b5   -> r <float>  (mj_nextActivation)
 
+term-gating op (checks/c05.py measures the same two booleans on the real engine with single-term probe scenes):
+  DT integ spring damper actuation eulerdamp term   (integ: mjtIntegrator value; flags 0/1 = mjDSBL_ bit clear/set;
+                                                     term: dofDamper tendonDamper fluidBox fluidEllipsoid actuator
+                                                     biasChain biasFree)      -> applied <0|1> inD <0|1>
+
 trace ops (inputs taken from the engine's own trace by checks/c05.py; `key n v1..vn` groups in any order):
   ADV <groups>     one `mj_advance` : groups h jtype actuation_disabled + per-actuator arrays + time qpos qvel act
                    actdot qacc [pvel]        -> time 1 . qpos n .. qvel n .. act n ..
@@ -160,6 +165,33 @@ def opNA (toks : List String) : Option String := do
     | _ => none
   | _ => none
 
+def b01 (b : Bool) : String := if b then "1" else "0"
+
+def opDT (toks : List String) : Option String := do
+  match toks with
+  | [integ, sp, da, ac, eu, term] =>
+    let integ ← integ.toInt?
+    let i : DTerms.Integ ←
+      if integ = Gen.RK4.mjINT_EULER then some .euler
+      else if integ = Gen.RK4.mjINT_RK4 then some .rk4
+      else if integ = Gen.RK4.mjINT_IMPLICIT then some .implicit
+      else if integ = Gen.RK4.mjINT_IMPLICITFAST then some .implicitfast
+      else none
+    let fl (s : String) : Option Bool := (s.toInt?).bind bool?
+    let f : DTerms.DFlags := { spring := ← fl sp, damper := ← fl da, actuation := ← fl ac, eulerdamp := ← fl eu }
+    let t : DTerms.FTerm ← match term with
+      | "dofDamper" => some .dofDamper
+      | "tendonDamper" => some .tendonDamper
+      | "fluidBox" => some .fluidBox
+      | "fluidEllipsoid" => some .fluidEllipsoid
+      | "actuator" => some .actuator
+      | "biasChain" => some .biasChain
+      | "biasFree" => some .biasFree
+      | _ => none
+    let d ← DTerms.inD i f t
+    pure ("applied " ++ b01 (DTerms.applied f t) ++ " inD " ++ b01 d)
+  | _ => none
+
 def step (line : String) : String :=
   let r : Option String :=
     match words line with
@@ -178,6 +210,7 @@ def step (line : String) : String :=
     | "NA" :: rest => opNA rest
     | "ADV" :: rest => opAdv rest
     | "RK4" :: rest => opRK4 rest
+    | "DT" :: rest => opDT rest
     | _ => none
   match r with
   | some s => s
